@@ -349,6 +349,7 @@ type fnCtx struct {
 	loopVars   map[types.Object]bool // variables of the enclosing range/for loops (immutable inside the body)
 	loopBodies []*ast.BlockStmt
 	aliasInd   int
+	safeIdx    map[string]bool           // index expressions already evaluated (without panic) by the left operand of the enclosing && / ||
 	alias      map[types.Object]ast.Expr // `p := &s[i]`: p stands for the element s[i] (notes/go2lean.md "Aliases")
 	// block mode
 	block   bool
@@ -633,6 +634,9 @@ func (c *fnCtx) expr(e ast.Expr) string {
 			c.fail(e, "index of type %s", c.info.TypeOf(x.Index))
 		}
 		c.part()
+		if c.safeIdx[exprText(c.u.l.fset, x)] {
+			c.nparts-- // the same (pure) index expression did not panic in the left operand: it cannot panic here
+		}
 		if signed {
 			return fmt.Sprintf("(← Go.idxI %s %s)", base, idx)
 		}
@@ -751,7 +755,19 @@ func (c *fnCtx) binary(x *ast.BinaryExpr) string {
 	case token.LAND, token.LOR:
 		a := c.expr(x.X)
 		before := c.nparts
+		saved := c.safeIdx
+		c.safeIdx = map[string]bool{}
+		for k := range saved {
+			c.safeIdx[k] = true
+		}
+		ast.Inspect(x.X, func(n ast.Node) bool {
+			if ie, ok := n.(*ast.IndexExpr); ok {
+				c.safeIdx[exprText(c.u.l.fset, ie)] = true
+			}
+			return true
+		})
 		b := c.expr(x.Y)
+		c.safeIdx = saved
 		if c.nparts != before {
 			c.fail(x.Y, "an operation that can panic in the right operand of %s (Go would skip it; the translation would not)", x.Op)
 		}
